@@ -30,7 +30,7 @@ class C13(Prop):
                 "NV.C13.single_char_extraction_safe", "NV.C13.run_never_crashes", "NV.C13.getUserData_N",
                 "NV.C13.addConsoleLine_N", "NV.C13.console_lines_delivered", "NV.C13.console_line_exact",
                 "NV.C13.consoleLines_eq_cmdsOf", "NV.C13.statement_order_tie",
-                "NV.C13.cc_table_tie", "NV.C13.cc_table_states", "NV.C13.cc_table_total", "NV.C13.cc_table_no_crash",
+                "NV.C13.cc_table_tie", "NV.C13.cc_table_states", "NV.C13.cc_table_total", "NV.C13.cc_table_no_crash", "NV.C13.edit_bytes_tie",
                 "NV.C13.reframeLoop_len", "NV.C13.reframe_N", "NV.C13.setCall_N", "NV.C13.endInput_N",
                 "NV.C13.reframe_is_line_framing", "NV.C13.getUserData_evok", "NV.C13.run_events_safe"]
     witness_theorems = ["NV.C13.sb_terminator_overflows_exact_array", "NV.C13.ayt_returns_to_data",
@@ -206,7 +206,10 @@ class C13(Prop):
         conf = E.make_mudlib(rd)
         cases = [E.Case("cc%d" % i, ["port telnet", "ccprobe %d %d %d %s %d %s" % (ts, cr, single, sbpos, fill, hx(pre))])
                  for i, (ts, cr, single, sbpos, fill, pre) in enumerate(self.cc_configs())]
+        cases.append(E.Case("ed", ["port telnet", "edprobe"]))
         res = E.run_harness(self.exe, conf, cases, rd)
+        edit_txt = self.edit_bytes(res.get("ed", []))
+        cases.pop()
 
         def sym(vals, b):
             return [256 if v == b else v for v in vals]
@@ -272,7 +275,34 @@ structure CcCfg where
 /-- C: the transition table of `copy_chars`, obtained by running the real function on every byte value in every
     configuration (harness/c13/c13.c `ccprobe`) -/
 def ccTable : List CcCfg := [
-""" + ",\n".join(cfgs) + "]")
+""" + ",\n".join(cfgs) + "]\n" + edit_txt)
+
+    def edit_bytes(self, lines):
+        """which bytes telnet_neg treats as erase-previous-character, which bytes add_console_line turns into the
+        command terminator - read off the real functions for every byte value (harness `edprobe`)"""
+        rs = [l.split() for l in lines if l.startswith("e ")]
+        if len(rs) != 255 or any(len(r) != 5 for r in rs):
+            raise X.TieBroken("edit-bytes", "edprobe failed: %s" % " / ".join(lines[-3:])[:300])
+        edit, nul = [], []
+        for r in rs:
+            b = int(r[1])
+            bb = "%02x" % b
+            if (r[2], r[3]) == ("61" + "62" + bb + "63", bb + "63"):
+                pass
+            elif (r[2], r[3]) == ("6163", "63"):
+                edit.append(b)
+            else:
+                raise X.TieBroken("edit-bytes", "telnet_neg treats byte %d in a way the model does not know: %s %s" % (b, r[2], r[3]))
+            if r[4] == "61" + bb + "63":
+                pass
+            elif r[4] == "610063":
+                nul.append(b)
+            else:
+                raise X.TieBroken("edit-bytes", "add_console_line stores byte %d as %s" % (b, r[4]))
+        return ("/-- C: the bytes for which the real `telnet_neg` removes the previous character (every other non-NUL byte was observed\n"
+                "    to be copied verbatim) -/\ndef tnEditBytes : List Nat := [%s]\n"
+                "/-- C: the bytes the real `add_console_line` converts into the command terminator NUL (every other byte verbatim) -/\n"
+                "def consoleNulBytes : List Nat := [%s]" % (", ".join(map(str, edit)), ", ".join(map(str, nul))))
 
     def prepare(self, ctx):
         if not getattr(self, "exe", None):      # normally built by gen_extra (cc_table)
